@@ -188,8 +188,11 @@ def euclid_kernel(data, events, cols):
     return np.array(out)
 
 
+ORDERS = ['ascending', 'reversed', 'shuffled']
+
+
 def check_rdms(shape, centres, neigh, method, variant=0, seed=0, n_cond=3, n_rep=2, record_inputs=True,
-               dtype='float64'):
+               dtype='float64', order='ascending'):
     """get_searchlight_RDMs(data, centres, neighbours, events, method) against a direct calc_rdm on the
     columns of every searchlight.  ``dtype`` is the dtype of the data matrix handed over (the tokens are
     integers, so an integer matrix is natural); the direct computation always uses a float64 copy of the same
@@ -197,6 +200,13 @@ def check_rdms(shape, centres, neigh, method, variant=0, seed=0, n_cond=3, n_rep
     import rsatoolbox
     from rsatoolbox.data import Dataset
     sl = _sl()
+    # the caller may pass any subset / order of centres with the matching neighbour lists: RDM i and
+    # voxel_index[i] must belong to the i-th centre AS PASSED
+    if order != 'ascending' and len(centres) > 1:
+        idx = list(range(len(centres)))[::-1] if order == 'reversed' else \
+            [int(x) for x in np.random.default_rng(seed + 3).permutation(len(centres))]
+        centres = [centres[j] for j in idx]
+        neigh = [neigh[j] for j in idx]
     n_vox = int(np.prod(shape))
     n_obs = n_cond * n_rep
     data, perm = token_data(n_obs, n_vox, seed)
@@ -216,7 +226,7 @@ def check_rdms(shape, centres, neigh, method, variant=0, seed=0, n_cond=3, n_rep
     # same float computation on float64 / integer data; float32 input may legitimately be averaged in float32
     rtol = 1e-6 if dtype == 'float32' else 1e-12
     case = {'shape': list(shape), 'n_centres': len(centres), 'method': method, 'variant': variant, 'seed': seed,
-            'events': events.tolist(), 'data_dtype': dtype}
+            'events': events.tolist(), 'data_dtype': dtype, 'centre_order': order}
     seen = []
     real_calc = sl.calc_rdm
 
@@ -245,7 +255,7 @@ def check_rdms(shape, centres, neigh, method, variant=0, seed=0, n_cond=3, n_rep
                  {**case, 'shape_got': list(diss.shape), 'shape_expected': [len(centres), n_pairs]})], info
     vi = rdms.rdm_descriptors.get('voxel_index')
     if vi is None or [int(x) for x in vi] != [int(x) for x in centres]:
-        bad.append(('c/rdms/voxel_index', "rdm_descriptors['voxel_index'] is not the list of centres in order",
+        bad.append(('c/rdms/voxel_index', "rdm_descriptors['voxel_index'] is not the list of centres in the order passed",
                     {**case, 'got': None if vi is None else [int(x) for x in vi][:20]}))
     # inputs handed to calc_rdm, in order: dataset i must hold exactly the columns of searchlight i
     if record_inputs:
@@ -282,14 +292,22 @@ def check_rdms(shape, centres, neigh, method, variant=0, seed=0, n_cond=3, n_rep
 
 
 # ------------------------------------------------------------------ clause d: model evaluation over searchlights
+def theta_sig(theta):
+    """a hashable signature of the theta argument an evaluation function received"""
+    if theta is None:
+        return None
+    return [np.asarray(t, dtype=float).round(12).tolist() if t is not None else None for t in theta]
+
+
 def token_eval(models, rdm, method='corr', theta=None):
-    """evaluation function whose result names the searchlight it was given; later centres finish FIRST
-    (decreasing sleep), so completion order differs from submission order whenever jobs run in parallel"""
+    """evaluation function whose result names the searchlight it was given (and echoes method / theta); later
+    centres finish FIRST (decreasing sleep), so completion order differs from submission order whenever jobs
+    run in parallel"""
     idx = int(rdm.rdm_descriptors['voxel_index'][0])
     pos = int(rdm.rdm_descriptors['pos'][0])
     n = int(rdm.rdm_descriptors['n'][0])
     time.sleep(0.002 * (n - pos))
-    return ('tok', idx, pos, float(np.nansum(rdm.dissimilarities)))
+    return ('tok', idx, pos, float(np.nansum(rdm.dissimilarities)), method, theta_sig(theta))
 
 
 def worker_env():
@@ -299,35 +317,45 @@ def worker_env():
                                                [p for p in os.environ.get('PYTHONPATH', '').split(os.pathsep) if p])
 
 
-def check_eval(sl_rdms, n_jobs_list=(1, 2, 4)):
-    """evaluate_models_searchlight: one result per centre, in centre order, for every n_jobs."""
-    import rsatoolbox
+def check_eval(sl_rdms, n_jobs_list=(1, 2, 4), method='corr'):
+    """evaluate_models_searchlight: one result per centre, in centre order, for every n_jobs - result i being the
+    evaluation of centre i's RDM with the models, method and theta that were passed.  Model sets: fixed models
+    (theta None), parametrised models (ModelWeighted) with theta None and with an EXPLICIT theta."""
     from rsatoolbox.inference import eval_fixed
-    from rsatoolbox.model import ModelFixed
+    from rsatoolbox.model import ModelFixed, ModelWeighted
     sl = _sl()
     worker_env()
     n = sl_rdms.n_rdm
     n_cond = sl_rdms.n_cond
+    n_pair = n_cond * (n_cond - 1) // 2
     rng = np.random.default_rng(5)
-    models = [ModelFixed('m1', rng.random(n_cond * (n_cond - 1) // 2)),
-              ModelFixed('m2', rng.random(n_cond * (n_cond - 1) // 2))]
+    fixed = [ModelFixed('m1', rng.random(n_pair)), ModelFixed('m2', rng.random(n_pair))]
+    weighted = [ModelWeighted('w1', rng.random((2, n_pair))), ModelWeighted('w2', rng.random((3, n_pair)))]
+    theta = [np.array([0.15, 1.0]), np.array([1.0, 0.05, 0.4])]
     sl_rdms = sl_rdms.copy() if hasattr(sl_rdms, 'copy') else sl_rdms
     sl_rdms.rdm_descriptors['pos'] = np.arange(n)
     sl_rdms.rdm_descriptors['n'] = np.full(n, n)
     centres = [int(x) for x in sl_rdms.rdm_descriptors['voxel_index']]
-    case = {'n_centres': n}
+    case = {'n_centres': n, 'method': method}
     bad = []
-    # sequential reference computed WITHOUT the function under test
-    ref = [eval_fixed(models, sl_rdms[i], method='corr').evaluations for i in range(n)]
+    # (evaluation function, models, theta): direct per-centre reference computed WITHOUT the function under test
+    setups = [('token', token_eval, weighted, theta), ('eval_fixed/weighted/theta', eval_fixed, weighted, theta),
+              ('eval_fixed/weighted/none', eval_fixed, weighted, None), ('eval_fixed/fixed/none', eval_fixed, fixed, None)]
+    refs = {name: [eval_fixed(mods, sl_rdms[i], theta=th, method=method).evaluations for i in range(n)]
+            for name, fn, mods, th in setups if fn is eval_fixed}
+    if all(np.allclose(a, b) for a, b in zip(refs['eval_fixed/weighted/theta'], refs['eval_fixed/weighted/none'])):
+        from harness.core import MachineryError
+        raise MachineryError('explicit theta does not change the reference evaluation: setup vacuous')
     nev = 0
     for nj in n_jobs_list:
-        for fn, name in ((token_eval, 'token'), (eval_fixed, 'eval_fixed')):
+        for name, fn, mods, th in setups:
+            cls = 'parallel' if nj > 1 else 'sequential'
             try:
                 with quiet():
-                    res = sl.evaluate_models_searchlight(sl_rdms, models, fn, method='corr', n_jobs=nj)
+                    res = sl.evaluate_models_searchlight(sl_rdms, mods, fn, method=method, theta=th, n_jobs=nj)
             except Exception as e:
                 bad.append((f'd/eval/raises/{type(e).__name__}', f'evaluate_models_searchlight(n_jobs={nj}) raises {e!r}',
-                            {**case, 'n_jobs': nj, 'eval_function': name}))
+                            {**case, 'n_jobs': nj, 'setup': name}))
                 continue
             nev += 1
             if not isinstance(res, (list, tuple)):
@@ -338,16 +366,21 @@ def check_eval(sl_rdms, n_jobs_list=(1, 2, 4)):
             if name == 'token':
                 got = [r[1] for r in res]
                 if got != centres:
-                    bad.append((f'd/eval/order/{"parallel" if nj > 1 else "sequential"}',
-                                'results are not in centre order', {**case, 'n_jobs': nj, 'expected': centres[:12],
-                                                                    'got': got[:12]}))
+                    bad.append((f'd/eval/order/{cls}', 'results are not in centre order',
+                                {**case, 'n_jobs': nj, 'expected': centres[:12], 'got': got[:12]}))
+                elif any(r[4] != method or r[5] != theta_sig(th) for r in res):
+                    bad.append((f'd/eval/arguments/{cls}', 'the evaluation function did not receive the method / theta '
+                                'that were passed', {**case, 'n_jobs': nj, 'passed_theta': theta_sig(th),
+                                                     'received': [list(r[4:]) for r in res[:2]]}))
             else:
                 for i, r in enumerate(res):
-                    if not np.array_equal(np.asarray(r.evaluations), np.asarray(ref[i]), equal_nan=True):
-                        bad.append((f'd/eval/value/{"parallel" if nj > 1 else "sequential"}',
-                                    'result i is not the evaluation of the RDM of centre i',
-                                    {**case, 'n_jobs': nj, 'position': i, 'got': np.asarray(r.evaluations).tolist(),
-                                     'expected': np.asarray(ref[i]).tolist()}))
+                    if not np.array_equal(np.asarray(r.evaluations), np.asarray(refs[name][i]), equal_nan=True):
+                        k = 'theta' if name.endswith('/theta') else 'value'
+                        bad.append((f'd/eval/{k}/{cls}', 'result i is not the evaluation of the RDM of centre i with the '
+                                    'models, method and theta passed (direct eval_fixed on that RDM)',
+                                    {**case, 'n_jobs': nj, 'setup': name, 'position': i,
+                                     'got': np.asarray(r.evaluations).tolist(),
+                                     'expected': np.asarray(refs[name][i]).tolist()}))
                         break
     return bad, nev
 
